@@ -35,14 +35,14 @@ func C16(r *core.Report) {
 		bufferOwnership(r, "C16.R7", run)
 	}
 	r.Floor("C16.R7", 2)
-	r.Floor("C16.R1", 3)
-	r.Floor("C16.R2", 3)
+	r.Floor("C16.R1", 2)
+	r.Floor("C16.R2", 2)
 	r.Floor("C16.R3", 1)
 	r.Floor("C16.R4", 1)
-	r.Floor("C16.R5", 3)
+	r.Floor("C16.R5", 2)
 	c16HeaderBytesComeFromTheStream(r)
 	c16PieceFilesStartEmpty(r)
-	r.Floor("C16.R6", 2)
+	r.Floor("C16.R6", 1)
 }
 
 // closureName names a literal by the variable it is assigned to ("" when anonymous).
@@ -321,8 +321,24 @@ func c16Pairing(r *core.Report) {
 			r.Check(same, rule, k+"-size-matches", pos(r, sa[i].n.Ast), "the size appended is the length the section reader was built with",
 				fmt.Sprintf("the section reader is %s bytes long but %s is appended to sizes: every later segment is addressed at the wrong offset", core.ExprStr(def.Args[2]), core.ExprStr(sa[i].arg)))
 			// the section skips the piece's own header
-			off := core.ExprStr(stripConv(def.Args[1]))
-			ln := core.ExprStr(stripConv(def.Args[2]))
+			// (through locals assigned once: contentStart, contentLen := int64(cf.HeaderSize), int64(cf.ContentSize))
+			viaLocal := func(e ast.Expr) ast.Expr {
+				e = stripConv(e)
+				for hop := 0; hop < 3; hop++ {
+					o := core.ObjOf(info, e)
+					if o == nil {
+						break
+					}
+					d := singleDef(f, o)
+					if d == nil {
+						break
+					}
+					e = stripConv(d)
+				}
+				return e
+			}
+			off := core.ExprStr(viaLocal(def.Args[1]))
+			ln := core.ExprStr(viaLocal(def.Args[2]))
 			okHdr := strings.HasSuffix(off, ".HeaderSize") && strings.HasSuffix(ln, ".ContentSize") && strings.TrimSuffix(off, ".HeaderSize") == strings.TrimSuffix(ln, ".ContentSize")
 			r.Check(okHdr, rule, k+"-skips-own-header", pos(r, def), "the section starts at the piece's HeaderSize and is ContentSize long",
 				"the section reader does not start at the same piece's HeaderSize / span its ContentSize")
